@@ -140,6 +140,19 @@ CLAIMED = {
              "QuadraticForm.jacobian_row, MatrixSum.jacobian_row, _compile_vectorized_power_gradient, "
              "_compile_vectorized_unary_gradient, compile_jacobian for 2+ expressions; lemmas covers<->occ are in the Lean table",
         design="6 C03"),
+    "C11": dict(
+        text="Vector part: _vector_binary_op is symbolically executed for every operand class (scalar, VectorVariable, "
+             "VectorExpression, 1-D array, 2-D array, other) and operator: the result has one element per element of the left "
+             "operand, element k denotes [[l_k]] op [[r_k]], operands of different length raise DimensionMismatchError, arrays "
+             "that are not 1-D and foreign operands are rejected. Every arithmetic operator method of VectorVariable and "
+             "VectorExpression (+, -, *, /, ** and the reflected forms, with scalars, vectors and 1-D arrays, unary minus) is "
+             "proved to produce the element-wise result with the operands in the written order. All lengths, all element trees.",
+        note="NOT proved -- covered only by the bounded stand-in native/bounded_vecmat.py (recipes x sizes x shapes compared with "
+             "NumPy, never counted as proved): views and slices, MatrixVariable / MatrixExpression and their operators, "
+             "transposes, symmetric sharing, trace / diagonal, A @ x, the x.dot(A @ x) rewriting, shape rejection in the matrix "
+             "API. Which reflected method NumPy calls for `array op vector` is NumPy's dispatch (assumed: __array_ufunc__ = None "
+             "makes NumPy defer). Known finding D22 (element-wise power nodes lack vector operators).",
+        design="12.2 / 12.7"),
     "C15": dict(
         text="Every iterative routine shares the contract of its recursive twin (same clauses, same spec functions), so callers "
              "(gradient, compile_expression, compute_degree, get_all_variables) are proved against one contract whichever twin runs, "
